@@ -38,6 +38,7 @@ func (p *prov) Acquire() (core.Ammo, bool) {
 	if p.left == 0 {
 		p.r.logf("e%d", p.r.lid(t))
 		p.r.rest(t)
+		p.r.startCancelled(true)
 		return nil, false
 	}
 	if p.left > 0 {
@@ -80,6 +81,7 @@ func (p *wprov) Acquire() (core.Ammo, bool) {
 	if !ok {
 		p.r.logf("e%d", p.r.lid(t))
 		p.r.rest(t)
+		p.r.startCancelled(true)
 		return a, false
 	}
 	p.r.acquired(t, a)
@@ -148,6 +150,7 @@ type sched struct {
 	past  int
 	late  time.Duration // how far in the past every past-th token lies
 	drawn int
+	shared bool // one object for all instances: the engine cancels the instance start when it is finished
 }
 
 func (s *sched) Start(t time.Time) { s.inner.Start(t) }
@@ -179,6 +182,9 @@ func (s *sched) Next() (time.Time, bool) {
 		}
 	} else {
 		s.r.logf("x%d", s.r.lid(t))
+		if s.shared {
+			s.r.startCancelled(false)
+		}
 	}
 	return tx, ok
 }
@@ -202,6 +208,9 @@ func (s *sched) Left() int {
 	s.r.logf("c%d:%d", s.r.lid(t), l)
 	if l == 0 {
 		s.r.rest(t)
+		if s.shared {
+			s.r.startCancelled(false)
+		}
 	}
 	return l
 }
@@ -242,6 +251,31 @@ func mkSchedule(kind string, tokens int) core.Schedule {
 	}
 }
 
+// startSched: the startup schedule behind a scheduling point (sctl): the goroutine that starts the instances parks before
+// every Next().
+type startSched struct {
+	r     *recorder
+	inner core.Schedule
+}
+
+func (s *startSched) Start(t time.Time) { s.inner.Start(t) }
+func (s *startSched) Left() int         { return s.inner.Left() }
+func (s *startSched) Next() (time.Time, bool) {
+	s.r.gateStarter()
+	tx, ok := s.inner.Next()
+	if c := s.r.ctl; c != nil && c.sctl {
+		s.r.mu.Lock()
+		if ok {
+			c.launched++
+		} else {
+			c.starterDone = true
+		}
+		s.r.mu.Unlock()
+		c.poke()
+	}
+	return tx, ok
+}
+
 // mkStartup: once | ramp<ms> (one instance every <ms> milliseconds)
 func mkStartup(kind string, inst int) core.Schedule {
 	if strings.HasPrefix(kind, "ramp") {
@@ -265,6 +299,7 @@ type gun struct {
 	aggr   core.Aggregator
 	report bool // report a sample per shot (real aggregator)
 	ids    map[any]int
+	panicAt int // fault plan: the panicAt-th Shoot of the pool panics (0 = never)
 }
 
 func (g *gun) Bind(a core.Aggregator, _ core.GunDeps) error { g.aggr = a; return nil }
@@ -279,7 +314,15 @@ func (g *gun) Shoot(a core.Ammo) {
 		}
 	}
 	g.r.logf("s%d:%d", g.r.lid(t), k)
+	g.r.shots++
+	boom := g.panicAt > 0 && g.r.shots == g.panicAt
+	if boom {
+		g.r.rest(t) // the instance leaves Run through the panic
+	}
 	g.r.mu.Unlock()
+	if boom {
+		panic("injected gun fault")
+	}
 	if g.shot > 0 {
 		time.Sleep(g.shot)
 	}
